@@ -3,6 +3,8 @@
 (* Batch oracle for C18 (harness/drivers/c18.py).  Query kinds:            *)
 (*   scen    -> the scenario list for a kernel with nw widths / nr rows    *)
 (*              (rotation r = seed), with the grid rows and limit positions*)
+(*   hist    -> the kernel-file histories (orders in which two equally named *)
+(*              user kernels are used)                                     *)
 (*   judge   -> the property's clauses on a recorded group of runs         *)
 (*   refusal -> expected / observed outcome for out-of-range pressures     *)
 (***************************************************************************)
@@ -18,6 +20,7 @@ Scen(q) == LET S == Scenarios(q.nw, q.nr, q.r)
 
 Step(q) ==
   CASE q.k = "scen" -> [scenarios |-> Scen(q)]
+    [] q.k = "hist" -> [histories |-> SetToSeq(Histories)]
     [] q.k = "judge" -> Judge(q)
     [] q.k = "refusal" -> Refusal(q)
 
